@@ -244,6 +244,49 @@ pub async fn cmd_server(args: Vec<String>) -> Result<()> {
             }
         }
     }
+    // C11 / C17: a peer that is refused but does not read its stream (tiny receive window) must
+    // not keep anybody else from being answered
+    {
+        env.log.emit("case", json!({"run": 999_998, "tasks": []}));
+        let slow = raw_connect_tiny_window(env.server.addr, &env.certs, 4).await?;
+        let t_ps = format!("/vslow{}/pubsub", seed % 1000);
+        let t_rr = format!("/vslow{}/reqrep", seed % 1000);
+        // create one topic of each pattern
+        let mut keep = vec![];
+        for (role, t) in [("sub", &t_ps), ("rep", &t_rr)] {
+            let mut st = raw_stream(&raw).await?;
+            st.send(reg_frame(role, TopicName::try_from(t.as_str())?)).await?;
+            let _ = first_reply(&mut st).await;
+            keep.push(st);
+        }
+        // refused registrations from the slow peer, never read: pattern mismatch (both ways), an
+        // invalid name, a non-registration first frame
+        let mut slow_streams = vec![];
+        for f in [
+            reg_frame("req", TopicName::try_from(t_ps.as_str())?),
+            reg_frame("pub", TopicName::try_from(t_rr.as_str())?),
+            reg_frame("sub", invalid_name(seed)),
+            other_frame(seed),
+        ] {
+            let mut st = raw_stream(&slow).await?;
+            st.send(f).await?;
+            slow_streams.push(st);
+        }
+        tokio::time::sleep(Duration::from_millis(200)).await;
+        let fresh = connect_client(env.server.addr, &env.certs, BackoffStrategy::constant().with_max_attempts(0)).await?;
+        for (t, pattern) in [(format!("/vslow{}/other1", seed % 1000), "pubsub"), (format!("/vslow{}/other2", seed % 1000), "reqrep")] {
+            let t0 = std::time::Instant::now();
+            let r = tokio::time::timeout(Duration::from_secs(20), probe(&fresh, &t, pattern)).await;
+            let res = match r {
+                Ok(Ok(())) => "ok".to_string(),
+                Ok(Err(e)) => format!("fail: {e}"),
+                Err(_) => "timeout_20s".to_string(),
+            };
+            env.log.emit("slow_refused_peer_probe", json!({"res": res, "ms": t0.elapsed().as_millis() as u64}));
+        }
+        drop(slow_streams);
+        drop(keep);
+    }
     // C07 / C01: two different names never share traffic
     env.log.emit("case", json!({"run": 999_999, "tasks": []}));
     let pairs: Vec<(String, String)> = vec![
@@ -490,7 +533,10 @@ pub async fn cmd_stall(args: Vec<String>) -> Result<()> {
 pub async fn cmd_tls(args: Vec<String>) -> Result<()> {
     let out = arg(&args, "--out").ok_or(anyhow!("--out"))?;
     let log = EvLog::to_file(&out)?;
-    let cases = read_cases(&arg(&args, "--cases").unwrap());
+    let mut cases = read_cases(&arg(&args, "--cases").unwrap());
+    // clients configured with CA T first: a client configured later with CA O (same certificate)
+    // must not inherit anything from them
+    cases.sort_by_key(|c| (c["trust"].as_str().unwrap_or("T") != "T", c["via"].as_str().unwrap_or("") != "library"));
     // two independent certificate sets from the bundled generator (fresh keys every run)
     let set1 = PathBuf::from(format!("{out}.certs-a"));
     let set2 = PathBuf::from(format!("{out}.certs-b"));
@@ -507,12 +553,15 @@ pub async fn cmd_tls(args: Vec<String>) -> Result<()> {
     // the client's CA is always set 1's: "trusted" server = set 1, "other_ca" server = set 2
     let servers = [("trusted", start_server(&set1, "127.0.0.1:0")?), ("other_ca", start_server(&set2, "127.0.0.1:0")?)];
     let ca1 = read_der(set1.join("client/ca.der"))?;
+    let ca2 = read_der(set2.join("client/ca.der"))?;
     let mut k = 0u64;
     for c in &cases {
         k += 1;
         let cid = c["client"].as_str().unwrap();
         let sid = c["server"].as_str().unwrap();
         let via = c["via"].as_str().unwrap();
+        let trust = c["trust"].as_str().unwrap_or("T");
+        let (ca, ca_set) = if trust == "T" { (&ca1, &set1) } else { (&ca2, &set2) };
         let addr = servers.iter().find(|(n, _)| *n == sid).unwrap().1.addr;
         let ident_dir = match cid {
             "trusted" => Some(set1.clone()),
@@ -529,7 +578,7 @@ pub async fn cmd_tls(args: Vec<String>) -> Result<()> {
                 (_, Some(d)) => Some((vec![read_der(d.join("client/localhost.der"))?], read_der(d.join("client/localhost.key.der"))?)),
                 _ => None,
             };
-            match tokio::time::timeout(Duration::from_secs(10), raw_connect_chain(addr, &ca1, ident)).await {
+            match tokio::time::timeout(Duration::from_secs(10), raw_connect_chain(addr, ca, ident)).await {
                 Ok(Ok(conn)) => {
                     // with TLS 1.3 the client may consider the handshake done before the server has
                     // judged its certificate: the registration decides
@@ -555,7 +604,7 @@ pub async fn cmd_tls(args: Vec<String>) -> Result<()> {
                     .keep_alive(5_000u64)?
                     .backoff_strategy(BackoffStrategy::constant().with_max_attempts(0))
                     .endpoint(&addr.to_string())
-                    .with_certificate_authority(set1.join("client/ca.der"))?
+                    .with_certificate_authority(ca_set.join("client/ca.der"))?
                     .with_cert_and_key(d.join("client/localhost.der"), d.join("client/localhost.key.der"))?
                     .connect()
                     .await?;
@@ -569,7 +618,7 @@ pub async fn cmd_tls(args: Vec<String>) -> Result<()> {
                 Err(_) => (false, false, "timeout".to_string()),
             }
         };
-        log.emit("tls", json!({"case": k, "client": cid, "server": sid, "via": via, "connected": connected,
+        log.emit("tls", json!({"case": k, "client": cid, "server": sid, "trust": trust, "via": via, "connected": connected,
             "registered": registered, "detail": detail.chars().take(100).collect::<String>()}));
     }
     log.flush();
